@@ -167,20 +167,31 @@ def run_one(I: Interp, reg: Registry, ci: ContractInfo, f, known_excludes=()):
             vals = dict(vals)
             vals.update(env.vars)
             vals['flow'] = flow
-        elif ci.kind == 'function' and getattr(ci.pycls, 'tail', None):
-            # a tail contract: the statements after the named loop, to the end of the function, from the state the inputs describe
-            result, env = I.run_tail(f, ci.pycls.tail, call_kwargs)
-            vals = dict(vals)
-            vals.update(env.vars)
         elif ci.kind == 'function':
             try:
-                result = I.call_function(f, [], call_kwargs)
+                if getattr(ci.pycls, 'tail', None):
+                    # a tail contract: the statements after the named loop, to the end of the function, from the state the inputs
+                    # describe -- or, when the contract also names a cut point, up to that later loop (a segment contract)
+                    result, env = I.run_tail(f, ci.pycls.tail, call_kwargs)
+                    vals = dict(vals)
+                    vals.update(env.vars)
+                else:
+                    result = I.call_function(f, [], call_kwargs)
             except CutReached as c:
                 # the contract is stated at a cut point (a loop head) instead of at the exit: its cut_* clauses see the locals
                 values = dict(vals)
                 values.update(c.env.vars)
                 for name in [n for n in vars(ci.pycls) if n.startswith('cut_')]:
                     I.oblige('post', name[4:], I.truth(reg.call_clause(I, ci, name, values)))
+                if getattr(ci.pycls, 'tail', None):
+                    # segment contract: its post_* clauses are stated over the locals at the cut point
+                    for name in ci.clauses:
+                        try:
+                            goal = I.truth(reg.call_clause(I, ci, name, values))
+                        except PyRaise as e:
+                            I.oblige('post', name[5:], False, note=f'the clause raised {e.exc_name}')
+                            continue
+                        I.oblige('post', name[5:], goal)
                 # frame up to the cut point: nothing that existed before the call has been written on the way -- neither by the
                 # statements that were followed nor inside the loops that were over-approximated (syntactic ownership, see
                 # Interp.loop_heap_writes).  One obligation per path, so that it has an identity on the unchanged tree
@@ -542,8 +553,10 @@ def native_step(ci: ContractInfo, vals: dict):
     if loop is None:
         raise HarnessError(f'loop {header!r} not found in {ci.target}')
     fnode = next((n for n in ast.walk(tree) if isinstance(n, ast.FunctionDef)), None)
-    if tail and (fnode is None or loop not in fnode.body):
-        raise HarnessError(f'tail contract: the loop {header!r} is not a statement at the top level of {ci.target}')
+    from .source import continuation_after
+    rest = continuation_after(fnode, loop) if (tail and fnode is not None) else None
+    if tail and rest is None:
+        raise HarnessError(f'tail contract: the loop {header!r} is not at the top level of {ci.target} (nor nested in if blocks only)')
 
     class Ret(ast.NodeTransformer):
         def visit_FunctionDef(self, node):
@@ -555,7 +568,16 @@ def native_step(ci: ContractInfo, vals: dict):
         def visit_Return(self, node):
             val = node.value if node.value is not None else ast.Constant(None)
             return ast.copy_location(ast.Return(ast.Tuple([ast.Constant('return'), val, ast.Call(ast.Name('locals', ast.Load()), [], [])], ast.Load())), node)
-    body = [Ret().visit(st) for st in (loop.body if not tail else fnode.body[fnode.body.index(loop) + 1:])]
+    if tail:
+        after = rest
+        stop = getattr(ci.pycls, 'cut', None)
+        if stop:
+            # a segment contract: up to (not including) the later loop it names
+            k = next((i for i, st in enumerate(after) if ast.unparse(st).split('\n')[0].rstrip(':').strip().startswith(stop)), None)
+            if k is None:
+                raise HarnessError(f'segment contract: the loop {stop!r} does not follow {header!r} at the top level of {ci.target}')
+            after = after[:k]
+    body = [Ret().visit(st) for st in (loop.body if not tail else after)]
     names = [k for k in vals if not k.startswith('_') and k.isidentifier()]
     end = lambda flow: ast.Return(ast.Tuple([ast.Constant(flow), ast.Constant(None), ast.Call(ast.Name('locals', ast.Load()), [], [])], ast.Load()))
     wrapper = ast.For(target=ast.Name('__once__', ast.Store()), iter=ast.Tuple([ast.Constant(0)], ast.Load()), body=body, orelse=[end('next')])
@@ -888,7 +910,8 @@ def bounded_standin(ci: ContractInfo, n: int, rng):
     """Bounded stand-in for a function the deductive engine cannot handle: n random inputs from the contract's own input
     builder, all clauses evaluated natively.  Returns (cases_run, first failing record or None)."""
     ran = 0
-    if getattr(ci.pycls, 'cut', None):
+    if getattr(ci.pycls, 'cut', None) and not getattr(ci.pycls, 'tail', None):
+        # (a segment contract -- tail + cut -- is run natively like a tail contract)
         # locals at a cut point cannot be observed natively: the stand-in is the document-level contract named in witness_via
         from .contract import REGISTRY
         wv = getattr(ci.pycls, 'witness_via', '') or ''
